@@ -38,9 +38,10 @@ fn le32(b: &[u8], at: usize) -> u32 {
 // dynafed::Params tag dispatch
 // ---------------------------------------------------------------------------------------------------------------
 
-//@ harness: params_dec_tag class=F tier=quick
+//@ harness: params_dec_tag class=F tier=thorough bound="unwind 3"
 //@ clause: dynafed::Params decode: tag 0 -> Null consuming exactly 1 byte and re-encoding to 00; every tag outside {0,1,2} -> ParseFailed("bad serialize type for dynafed parameters"); empty input is an error
 #[kani::proof]
+#[kani::unwind(3)] // the (infeasible here, but symbolically explored) tag-2 arm decodes a Vec<Vec<u8>> whose element loop has a non-constant bound
 fn params_dec_tag() {
     let buf: [u8; 2] = kani::any();
     kani::assume(buf[0] != 1 && buf[0] != 2);
